@@ -55,7 +55,8 @@ def _construct(bounded, cap=12):
         (r"Edge spanner_e = std::get<0>\(\s*boost::add_edge\(spanner_v, spanner_u, _spanner\)\);",
          "size_t spanner_e = vp_ns; SPS[vp_ns] = spanner_v; SPT[vp_ns] = spanner_u; vp_ns++;", 1, "container-api",
          "boost::add_edge on the spanner = append (source,target), descriptor = ordinal"),
-        (r"boost::put\(boost::edge_weight, _spanner, spanner_e, boost::get\(_weight_map, e\)\);", "SPW[spanner_e] = WT[e];", (0, 1), "container-api",
+        (r"boost::get\(_weight_map, (\w+)\)", r"WT[\1]", (0, 3), "container-api", "the caller's weight map"),
+        (r"boost::put\(boost::edge_weight, _spanner, (\w+), ([^;]*)\);", r"SPW[\1] = \2;", (0, 1), "container-api",
          "edge_weight property of the spanner edge"),
         (r"_edge_spanner_to_g\[spanner_e\] = e;", "TR[spanner_e] = e; GST[ei] = 1; GIDX[ei] = spanner_e;", 1, "ghost", "map insert + ghost: position ei retained as spanner edge"),
         (r"_non_spanner_edges\.push_back\(e\);", "DROP[vp_nd] = e; GST[ei] = 2; GIDX[ei] = vp_nd; vp_nd++;", 1, "ghost", "push_back + ghost: position ei dropped"),
@@ -130,7 +131,9 @@ def _translate(bounded, mc=3, ml=4):
         (r"for \(const auto &spanner_e : spanner_cycle\)", "for (size_t pos = 0; pos < CLEN[cyc]; pos++)", 1, "container-api", "range-for over the edges of one cycle"),
         (r"Edge e = _edge_spanner_to_g\.at\(spanner_e\);", "size_t spanner_e = CYC[cyc][pos]; size_t e = TR[spanner_e];", 1, "container-api", "std::map::at (key present: K17a)"),
         (r"cycle_edgelist\.push_back\(e\);", "OUT[cyc][vp_len++] = e;", 1, "container-api", ""),
-        (r"_weight \+= boost::get\(_weight_map, e\);", "vp_weight += WT[e];", 1, "container-api", "the CALLER's weight map"),
+        (r"boost::get\(_weight_map, (\w+)\)", r"WT[\1]", (0, 3), "container-api", "the CALLER's weight map"),
+        (r"boost::get\(spanner_weight_map, (\w+)\)", r"SPW[\1]", (0, 3), "container-api", "the spanner's weight map"),
+        (r"\b_weight \+=", "vp_weight +=", 1, "type-binding", "member _weight"),
         (r"\*out\+\+ = cycle_edgelist;", "OLEN[vp_emitted++] = vp_len;", 1, "container-api", "output iterator"),
     ], log)
     inv_outer = ("__CPROVER_assigns(cyc, vp_weight, vp_emitted, __CPROVER_object_whole(OUT), __CPROVER_object_whole(OLEN))\n"
